@@ -481,4 +481,38 @@ Qed.
 Theorem solo_run_uploads_current evs : solo_run evs init -> uploads_current (run evs init).
 Proof. intro So. apply (solo_uploads_current evs init (Inv_init sha) SInv_init So). Qed.
 
+(* an executable check of [solo_run], for the non-vacuity examples *)
+Definition count_live (l : list (nat * inst)) : nat := length (filter (fun p => live (snd p)) l).
+Definition solo_b (w : world) : bool := (count_live (w_insts w) <=? 1)%nat.
+Fixpoint solo_run_b (evs : list ev) (w : world) : bool :=
+  match evs with
+  | [] => solo_b w
+  | e :: r => solo_b w && solo_run_b r (fst (step w e))
+  end.
+
+Lemma get_inst_in l i x : get_inst l i = Some x -> In (i, x) l.
+Proof.
+  induction l as [|[j y] r IH]; cbn; [discriminate|].
+  destruct (Nat.eqb_spec i j); intro H; [inversion H; subst; left; reflexivity|right; auto].
+Qed.
+
+Lemma solo_b_sound w : solo_b w = true -> solo w.
+Proof.
+  unfold solo_b, solo, count_live. intros H i j x y Gi Gj Lx Ly.
+  apply Nat.leb_le in H.
+  destruct (Nat.eq_dec i j) as [E|N]; [assumption|exfalso].
+  apply get_inst_in in Gi, Gj.
+  set (f := fun p : nat * inst => live (snd p)) in *.
+  assert (Fi : In (i, x) (filter f (w_insts w))) by (apply filter_In; split; [assumption|exact Lx]).
+  assert (Fj : In (j, y) (filter f (w_insts w))) by (apply filter_In; split; [assumption|exact Ly]).
+  destruct (filter f (w_insts w)) as [|a [|b r]]; [destruct Fi| |cbn in H; lia].
+  destruct Fi as [Fi|[]], Fj as [Fj|[]]. congruence.
+Qed.
+
+Lemma solo_run_b_sound evs : forall w, solo_run_b evs w = true -> solo_run evs w.
+Proof.
+  induction evs as [|e r IH]; intros w H; cbn in *; [now apply solo_b_sound|].
+  apply andb_true_iff in H. destruct H as [H1 H2]. split; [now apply solo_b_sound|auto].
+Qed.
+
 End S.
